@@ -9,6 +9,7 @@ import (
 	"sort"
 	"strings"
 	"time"
+	"verifharness/internal/pool"
 
 	"verifharness/internal/proto"
 	"verifharness/internal/tlc"
@@ -483,8 +484,54 @@ func checkC02(c *Ctx) {
 	}, func(j *Job, r *proto.Result) { tsJudgeView(c, j.Raw, j.Data.(*tsVData).v, r) }) {
 		return
 	}
+	// 6. many documents with unsaved edits at once (the analysed view of each must still be its own edited text)
+	c02ManyDocs(c, p)
 	c.Rep.Exhaustive = true
 	c.poolStats(p)
+}
+
+// c02ManyDocs: 26 documents are opened and each is edited without saving; then the outline of every one is asked. As
+// built the analyses of unsaved texts live in a cache of 20 entries: the documents whose edit is older than the 20 most
+// recent ones are answered from the file on disk (known finding Dev_UnsavedAnalysisLimit20, predicted exactly).
+func c02ManyDocs(c *Ctx, p *pool.Pool) {
+	const n = 26
+	pc := &proto.Case{ID: 1, Files: map[string]string{}, Init: json.RawMessage(allOnLocal)}
+	name := func(i int) string { return fmt.Sprintf("many%02d.lua", i) }
+	for i := 0; i < n; i++ {
+		pc.Files[name(i)] = fmt.Sprintf("gold%d = 1\n", i)
+	}
+	for i := 0; i < n; i++ {
+		pc.Steps = append(pc.Steps, openStep(name(i), pc.Files[name(i)]))
+	}
+	for i := 0; i < n; i++ {
+		pc.Steps = append(pc.Steps, proto.Step{M: "textDocument/didChange", N: true,
+			P: json.RawMessage(fmt.Sprintf(`{"textDocument":{"uri":"file://$ROOT/%s","version":2},"contentChanges":[{"text":"gnew%d = 1\n"}]}`, name(i), i))})
+	}
+	first := len(pc.Steps)
+	for i := 0; i < n; i++ {
+		pc.Steps = append(pc.Steps, proto.Step{M: "textDocument/documentSymbol", P: json.RawMessage(fmt.Sprintf(`{"textDocument":{"uri":"file://$ROOT/%s"}}`, name(i)))})
+	}
+	raw, _ := json.Marshal(map[string]interface{}{"fam": "manydocs", "n": n})
+	p.RunSlice([][]*proto.Case{{pc}}, func(_ *proto.Case, r *proto.Result) {
+		c.Rep.Eval("manydocs")
+		if r.Crash != "" || r.Hang {
+			c.Rep.Violation(raw, fmt.Sprintf("server died or hung with %d edited documents open (crash=%q)", n, r.Crash))
+			return
+		}
+		for i := 0; i < n; i++ {
+			rep := string(r.Steps[first+i].Reply)
+			hasNew, hasOld := strings.Contains(rep, fmt.Sprintf(`"gnew%d"`, i)), strings.Contains(rep, fmt.Sprintf(`"gold%d"`, i))
+			desc := fmt.Sprintf("%d documents open, each edited without saving: the outline of %s (edited %d edits before the last) answers %s; the client holds \"gnew%d = 1\"", n, name(i), n-1-i, clip(rep, 160), i)
+			switch {
+			case hasNew && !hasOld:
+			case hasOld && !hasNew && i < n-20:
+				c.Rep.Deviation("Dev_UnsavedAnalysisLimit20", desc, raw)
+			default:
+				c.Rep.Violation(raw, desc)
+			}
+		}
+	})
+	c.Rep.Traces++
 }
 
 func replayTS(c *Ctx) {
